@@ -1,0 +1,250 @@
+"""
+Tracing hooks for trace validation against the TLA+ specification (verification tooling only).
+
+Nothing in this module runs unless the environment variable FXPMATH_VERIF_TRACE names a file: then
+`install()` (called from fxpmath/__init__.py) wraps two linearisation points of the library,
+
+  * Fxp.set_val                       (every top-level store, whoever calls it)
+  * functions._function_over_two_vars (every two-operand arithmetic call: operators, functions, NumPy dispatch)
+
+and appends one ndjson observation row per top-level call AFTER the call returned (also when it raised).
+Calls nested inside a traced call are not logged (depth counter).  Rows use the wire format of the
+validator: integers as [neg, limb0, limb1, ...] in base 2**15, values as exact dyadics {"m": int, "e": exp}.
+The hooks only observe: they call the original function and read public attributes afterwards.
+"""
+import os
+import json
+import math
+import functools
+import fractions
+
+import numpy as np
+
+_PATH = os.environ.get('FXPMATH_VERIF_TRACE')
+_depth = 0
+_seq = 0
+_MAX_ELEMS = 64
+
+
+def _wint(n):
+    n = int(n)
+    out = [1 if n < 0 else 0]
+    n = abs(n)
+    while n:
+        out.append(n & 32767)
+        n >>= 15
+    return out
+
+
+def _wdy(x):
+    fr = fractions.Fraction(x)
+    m, d = fr.numerator, fr.denominator
+    e = -(d.bit_length() - 1)
+    if m == 0:
+        return {'m': [0], 'e': 0}
+    while m % 2 == 0:
+        m //= 2
+        e += 1
+    return {'m': _wint(m), 'e': e}
+
+
+def _numbers(val):
+    """flat list of exact Fractions if val is a plain real number / container of them, else None"""
+    try:
+        if isinstance(val, (bool, np.bool_)) or val is None:
+            return None
+        if isinstance(val, (int, float, np.integer, np.floating)):
+            vals = [val]
+        elif isinstance(val, np.ndarray) and val.dtype.kind in 'iuf':
+            vals = val.ravel().tolist()
+        elif isinstance(val, (list, tuple)):
+            a = np.array(val)
+            if a.dtype.kind not in 'iuf':
+                return None
+            vals = [v for v in np.array(val, dtype=object).ravel().tolist()]
+        else:
+            return None
+        out = []
+        for v in vals:
+            if isinstance(v, (float, np.floating)) and not math.isfinite(float(v)):
+                return None
+            out.append(fractions.Fraction(int(v)) if isinstance(v, (int, np.integer)) else fractions.Fraction(float(v)))
+        return out
+    except Exception:
+        return None
+
+
+def _emit(row):
+    global _seq
+    _seq += 1
+    row['seq'] = _seq
+    row['pid'] = os.getpid()
+    with open(_PATH, 'a') as fh:
+        fh.write(json.dumps(row, separators=(',', ':')) + '\n')
+
+
+def _fmt(x):
+    return {'s': bool(x.signed), 'w': int(x.n_word), 'f': int(x.n_frac)}
+
+
+def _modes(x):
+    return {'r': x.config.rounding, 'o': x.config.overflow}
+
+
+def _flags(x):
+    st = x.status
+    return [bool(st.get('overflow')), bool(st.get('underflow')), bool(st.get('inaccuracy'))]
+
+
+def _codes(a):
+    out = []
+    for c in np.asarray(a).ravel().tolist():
+        if isinstance(c, float):
+            if not c.is_integer():
+                raise ValueError('non integral code')
+            c = int(c)
+        out.append(int(c))
+    return out
+
+
+def install():
+    from . import objects, functions
+    Fxp = objects.Fxp
+
+    orig_set_val = Fxp.set_val
+
+    @functools.wraps(orig_set_val)
+    def set_val(self, val, raw=False, vdtype=None, index=None):
+        global _depth
+        top = _depth == 0
+        pre = None
+        if top:
+            try:
+                pre = _flags(self) if self.status is not None else None
+            except Exception:
+                pre = None
+        _depth += 1
+        err = None
+        try:
+            return orig_set_val(self, val, raw=raw, vdtype=vdtype, index=index)
+        except Exception as ex:
+            err = type(ex).__name__
+            raise
+        finally:
+            _depth -= 1
+            if top:
+                try:
+                    _log_store(self, val, raw, index, pre, err)
+                except Exception:
+                    pass
+    Fxp.set_val = set_val
+
+    orig_two = functions._function_over_two_vars
+
+    @functools.wraps(orig_two)
+    def two_vars(repr_func, raw_func, x, y, out=None, out_like=None, sizing='optimal', method='raw', optimal_size=None, **kwargs):
+        global _depth
+        top = _depth == 0
+        _depth += 1
+        z = None
+        err = None
+        try:
+            z = orig_two(repr_func, raw_func, x, y, out=out, out_like=out_like, sizing=sizing, method=method, optimal_size=optimal_size, **kwargs)
+            return z
+        except Exception as ex:
+            err = type(ex).__name__
+            raise
+        finally:
+            _depth -= 1
+            if top and err is None:
+                try:
+                    _log_arith(getattr(raw_func, '__name__', ''), x, y, z, out, out_like, sizing, method)
+                except Exception:
+                    pass
+    functions._function_over_two_vars = two_vars
+
+
+def _log_store(x, val, raw, index, pre, err):
+    if err is not None or x.val is None or x.signed is None:
+        return
+    if x.vdtype == complex or np.iscomplexobj(x.val) or x.scaled:
+        return
+    if isinstance(x.val, np.ndarray) and x.val.dtype.kind not in 'iuO':
+        return
+    nums = _numbers(val)
+    if nums is None or not nums or len(nums) > _MAX_ELEMS:
+        return
+    w, f = int(x.n_word), int(x.n_frac)
+    written = x.val if index is None else x.val[index]
+    codes = _codes(written)
+    if len(codes) != len(nums):
+        if len(nums) == 1:
+            nums = nums * len(codes)       # a scalar broadcast into a slice
+        else:
+            return
+    if raw:
+        nums = [n / fractions.Fraction(2) ** f for n in nums]
+    vmax = max(abs(n) for n in nums)
+    scaled = vmax * fractions.Fraction(2) ** f
+    isint = isinstance(val, (int, np.integer)) or (isinstance(val, np.ndarray) and val.dtype.kind in 'iu')
+    core = 1 <= w <= 52 and -8 <= f <= w + 8 and vmax < 2 ** 53 and scaled < 2 ** 62
+    props = []
+    if core or (w <= 52 and f >= 0 and x.config.overflow == 'saturate' and not isint) or (isint and 0 <= f <= w + 3 and w <= 52):
+        props.append('C01' if core else ('C19' if isint else 'C02'))
+        if core:
+            props += ['C05', 'C02']
+            if x.config.overflow == 'wrap':
+                props.append('C03')
+            if pre is not None and not any(pre):
+                props.append('C04')
+    elif w >= 64 and isint:
+        props.append('C18')
+    if not props:
+        return
+    fl = _flags(x)
+    _emit({'k': 'store', 'p': props, 's': bool(x.signed), 'w': w, 'f': f, 'r': x.config.rounding, 'o': x.config.overflow,
+           'route': 'hook.set_val' + ('/raw' if raw else '') + ('/index' if index is not None else ''),
+           'carrier': type(val).__name__, 'agg': True, 'sorted': False, 'v': [_wdy(n) for n in nums], 'c': [_wint(c) for c in codes],
+           'rb': [], 'fo': [fl[0]], 'fu': [fl[1]], 'fi': [fl[2]]})
+
+
+_OPS = {'_add_raw': 'add', '_sub_raw': 'sub', '_mul_raw': 'mul'}
+
+
+def _log_arith(name, x, y, z, out, out_like, sizing, method):
+    from .objects import Fxp
+    op = _OPS.get(name)
+    if op is None or not isinstance(x, Fxp) or not isinstance(y, Fxp) or not isinstance(z, Fxp):
+        return
+    for o in (x, y, z):
+        if o.vdtype == complex or np.iscomplexobj(o.val) or o.scaled or o.val is None:
+            return
+    if sizing not in ('optimal', 'same', 'largest', 'smallest'):
+        return
+    xv, yv = np.broadcast_arrays(np.asarray(x.val), np.asarray(y.val))
+    cx, cy, cz = _codes(xv), _codes(yv), _codes(z.val)
+    if len(cx) != len(cz) or len(cx) > _MAX_ELEMS:
+        return
+    target = 'out' if out is not None else ('out_like' if out_like is not None else 'none')
+    t = out if out is not None else out_like
+    if isinstance(t, tuple):
+        t = t[0]
+    imposed = sizing != 'optimal' or target != 'none'
+    words = (int(x.n_word), int(y.n_word), int(z.n_word))
+    if imposed:
+        if max(words) > 12 or min(x.n_frac, y.n_frac, z.n_frac) < 0 or target == 'out':
+            return        # (an existing out object may carry earlier flags: not judged from a single call)
+        props = ['C08']
+    else:
+        props = ['C07'] if z.n_word <= 53 and max(words[:2]) <= 52 else ['C19']
+        if min(x.n_frac, y.n_frac) < -1:
+            return
+    fl = _flags(z)
+    _emit({'k': 'arith', 'p': props, 'op': op, 'x': _fmt(x), 'y': _fmt(y), 'z': _fmt(z), 'sizing': sizing, 'method': method,
+           'route': 'hook.two_vars', 'xm': _modes(x), 'ym': _modes(y), 'zm': _modes(z), 'target': target,
+           'tf': _fmt(t) if t is not None else {'s': False, 'w': 0, 'f': 0}, 'tm': _modes(t) if t is not None else {'r': 'trunc', 'o': 'saturate'},
+           'agg': True, 'carrier': 'hook', 'dirty': False,
+           'opi': bool(x.status.get('inaccuracy') or y.status.get('inaccuracy')),
+           'cx': [_wint(c) for c in cx], 'cy': [_wint(c) for c in cy], 'cz': [_wint(c) for c in cz],
+           'fo': [fl[0]], 'fu': [fl[1]], 'fi': [fl[2]], 'same_obj': bool(out is not None and z is (out[0] if isinstance(out, tuple) else out)),
+           'zshape': list(np.shape(z.val)), 'v': [0] * len(cz)})
